@@ -54,11 +54,14 @@ def gen_scenario(seed, k):
         ]
         # output containing the two code points XML 1.0 excludes (U+FFFE, U+FFFF), C0 controls, an ANSI escape and invalid UTF-8
         hostile_out = ("before \ufffe middle \uffff \x01\x08\x0b \x1b[31mred\x1b[0m ]]> <&> end\n"
-                       "astral \U0001f600 \U0001d49c \U00020000 \U0010fffd bmp \ue000 \ufffd \ud7ff \ufdd0 \u2028 ok\n").encode() + b"\xff\xfe tail\n"
+                       "astral \U0001f600 \U0001d49c \U00020000 \U0010fffd bmp \ue000 \ufffd \ud7ff \ufdd0 \u2028 ok\n").encode() + b"\xff\xfe tail\n" + (
+                       # a panic message (nextest extracts it as the failure's message / description) carrying the two excluded code points
+                       "thread 'main' panicked at src/hostile.rs:1:1:\nnonchar \ufffe and \uffff in the panic message\n").encode()
         # what the documented normalisations leave of it: lossy UTF-8 (U+FFFD per invalid byte), the ANSI escape sequence and the
         # characters XML 1.0 excludes removed; everything else — astral planes, private use, U+FFFD, U+D7FF, U+FDD0, U+2028 — kept
         sc_hostile_text = ("before  middle   red ]]> <&> end\n"
-                           "astral \U0001f600 \U0001d49c \U00020000 \U0010fffd bmp \ue000 \ufffd \ud7ff \ufdd0 \u2028 ok\n\ufffd\ufffd tail\n")
+                           "astral \U0001f600 \U0001d49c \U00020000 \U0010fffd bmp \ue000 \ufffd \ud7ff \ufdd0 \u2028 ok\n\ufffd\ufffd tail\n"
+                           "thread 'main' panicked at src/hostile.rs:1:1:\nnonchar  and  in the panic message\n")
         nonchar = {"kind": "fail", "acts": ["out:" + hx(hostile_out), "err:" + hx(hostile_out), "exit:1"], "out": None, "err": None, "expect": "F", "raw_out": hostile_out, "junit_text": sc_hostile_text}
         tests.append({"bin": "t_three", "pkg": "beta", "name": "hostile_output", "ignored": False, "attempts": [nonchar] * 3})
         for t in tests: sc.test(t["bin"], t["name"], {str(i + 1): a["acts"] for i, a in enumerate(t["attempts"])})
@@ -247,6 +250,30 @@ test-group = 'g1'
         sc.env = {}
         sc.timeout_s = 60
         sc.meta = {"tests": tests, "retries": 0, "threads": 2, "heavy": False, "group_m": 4, "group_r": None, "grace": GRACE, "delay_ms": 0, "backoff": "fixed", "run_ignored": "default", "extra": False, "store_s": False, "store_f": True}
+        return sc
+    if k == 10:
+        # fixed scenario (corpus): an ignored (hence skipped) test that sorts ahead of the runnable ones on 3 test threads: a skipped
+        # test holds no slot, so the two tests that run get global slots 0 and 1
+        w = lambda ms_: {"kind": "pass", "acts": [f"work:{ms_}", "exit:0"], "out": None, "err": None, "expect": "P"}
+        tests = [{"bin": "t_one", "pkg": "alpha", "name": "a_skipped", "ignored": True, "attempts": [w(10)]},
+                 {"bin": "t_one", "pkg": "alpha", "name": "b_first", "ignored": False, "attempts": [w(300)]},
+                 {"bin": "t_one", "pkg": "alpha", "name": "c_second", "ignored": False, "attempts": [w(300)]}]
+        for t in tests: sc.test(t["bin"], t["name"], {"1": t["attempts"][0]["acts"]}, ignored=t["ignored"])
+        sc.config = '''[profile.default]
+retries = 0
+test-threads = 3
+fail-fast = false
+status-level = "all"
+final-status-level = "all"
+failure-output = "never"
+success-output = "never"
+[profile.default.junit]
+path = "@JUNIT@"
+'''
+        sc.cli = []
+        sc.env = {}
+        sc.timeout_s = 60
+        sc.meta = {"tests": tests, "retries": 0, "threads": 3, "heavy": False, "group_m": None, "group_r": None, "grace": GRACE, "delay_ms": 0, "backoff": "fixed", "run_ignored": "default", "extra": False, "store_s": False, "store_f": True}
         return sc
     if k in (8, 9):
         # fixed scenarios (corpus): --no-capture forces serial execution whatever test-threads says (4 here) — also together with the
@@ -827,7 +854,7 @@ if __name__ == "__main__":
             for v in mon(sc, r): print("   ", mon.__name__, v["what"][:300])
 
 
-def check(monitors, seed, tier, n_quick=12, n_thorough=60):
+def check(monitors, seed, tier, n_quick=13, n_thorough=60):
     """Run the family and the given monitors; returns a dict to be merged into a property's result."""
     res, broken = run_family(seed, tier, n_quick, n_thorough)
     violations = []; notes = []
